@@ -106,8 +106,31 @@ def run_faithful(ctx):
                     continue
                 hits.append((name, t["sp"], callee))
         short = fn.split("varpulis_runtime::", 1)[1]
+        # vacant-only restore: `map.entry(k).or_insert_with(|| <built from the checkpoint>)` whose result is not written through
+        # restores nothing for a key that already exists — and a freshly loaded engine pre-registers its sources / partitions
+        if role == "restore":
+            from vpr.prov import forward_uses
+            for p in bodies:
+                b = ctx.body(p)
+                if b is None:
+                    continue
+                for bb, t in b.calls():
+                    callee = t.get("inst") or t["callee"]
+                    if callee.rsplit("::", 1)[-1] in ("or_insert_with", "or_insert", "or_default", "or_insert_with_key") and "Entry" in callee:
+                        sinks = forward_uses(b, t["dest"]["l"])
+                        written = any(s[0] == "field_write" for s in sinks) or any(s[0] == "call" and s[4] == 0 and not s[1].endswith(("::clone", "::deref")) for s in sinks)
+                        # direct field assignments through the returned reference show up as writes to places rooted at the dest local
+                        for b2 in sorted(b.live):
+                            for s2 in b.stmts(b2):
+                                if s2["d"]["l"] == t["dest"]["l"] and s2["d"]["p"]:
+                                    written = True
+                        if not written:
+                            hits.append(("vacant-only " + callee.rsplit("::", 1)[-1], t["sp"], callee))
         if hits:
             for name, sp, callee in hits:
+                if name.startswith("vacant-only"):
+                    ctx.violation("faithful", "%s:%s" % (short, name.replace(" ", ":")), "%s restores an entry only through `%s` and never writes through the returned reference: a key that already exists keeps its pre-restore value (a freshly loaded engine pre-registers its sources / partitions, so exactly those are not restored)" % (short, name.split(" ", 1)[1]), site=sp)
+                    continue
                 kind = "reorders" if name in REORDER else "may drop elements of"
                 ctx.violation("faithful", "%s:%s" % (short, name), "%s calls %s, which %s a collection on the %s path: the restored state is no longer the saved state element for element and in order (operators that pick by position — the join's last-in-window partner, window emission order — answer differently after a restore)" % (
                     short, name, kind, role), site=sp)
